@@ -22,6 +22,7 @@ fn main() {
             let seed: u64 = args[4].parse().expect("seed");
             let out = std::fs::File::create(&args[5]).expect("create trace");
             let mut ctx = gen::Ctx {
+                allow_huge: std::cell::Cell::new(false),
                 rng: gen::Rng(std::cell::Cell::new(seed ^ 0x5DEECE66D ^ ((profile as u64) << 40))),
                 out: std::cell::RefCell::new(std::io::BufWriter::with_capacity(1 << 20, out)),
                 profile,
